@@ -75,11 +75,13 @@ Proof. exact spec_packsize_plain. Qed.
 Print Assumptions C09_oracle_plain.
 
 (* The listeners' limits: a UDP response never exceeds max(512, the size the client advertised in its (last) OPT
-   record) — 512 when the query has no OPT —, a DoH body never exceeds 65535 octets, and a TCP/DoT/DoQ frame is one
+   record) — 512 when the query has no OPT — nor the 65507 octets a datagram can carry (fix D20: a larger response used
+   to be packed untruncated and could not be sent at all), a DoH body never exceeds 65535 octets, and a TCP/DoT/DoQ frame is one
    2-octet prefix equal to the body length followed by a body of at most 65535 octets.  (r is any well-formed response
    whose OPT record, if any, is small: the router's own OPT is 11 octets.) *)
 Theorem C09_listener_limits : forall (l : listener) (q r : msg), wf_msg r -> opt_len r + 12 <= 512 ->
   (512 <= client_udp_size q)%N /\ (has_opt q = false -> client_udp_size q = 512%N) /\
+  (client_udp_size q <= N.max 512 (advertised_size q))%N /\ (client_udp_size q <= 65507)%N /\
   exists b, respond l q r = [b] /\
             match l with
             | LUdp => length b <= N.to_nat (client_udp_size q)
@@ -87,7 +89,8 @@ Theorem C09_listener_limits : forall (l : listener) (q r : msg), wf_msg r -> opt
             | LTcp => exists body, b = be16n (length body) ++ body /\ length body <= max_size
             end.
 Proof.
-  intros l q r Hw Ho. split; [apply client_udp_size_ge|]. split; [apply client_udp_size_no_opt|now apply respond_size].
+  intros l q r Hw Ho. split; [apply client_udp_size_ge|]. split; [apply client_udp_size_no_opt|].
+  split; [apply client_udp_size_le|]. split; [apply client_udp_size_le|now apply respond_size].
 Qed.
 Print Assumptions C09_listener_limits.
 
